@@ -108,7 +108,6 @@ fn csp_rule(r: &mut Rng) -> String {
 fn csp_value_of(line: &str) -> Option<String> {
     let i = line.rfind('$')?;
     line[i + 1..].split(',').find_map(|o| {
-        let o = o.trim();
         if o == "csp" { Some(None) } else { o.strip_prefix("csp=").map(|v| if v.is_empty() { None } else { Some(v.to_string()) }) }
     })?
 }
